@@ -65,6 +65,14 @@ fn tier_scale(ctx: &Ctx, quick: u64, thorough: u64) -> u64 {
 
 pub fn run(ctx: &mut Ctx) {
     let prop = ctx.prop.clone();
+    if std::env::var("BTCMON_BENCH_RESET").is_ok() {
+        let t = std::time::Instant::now();
+        for _ in 0..50 {
+            crate::world::reset(&crate::world::WorldCfg::new(Network::Regtest, 2));
+        }
+        ctx.cov.add("bench_50_resets_ms", t.elapsed().as_millis() as u64);
+        return;
+    }
     match prop.as_str() {
         "C02" | "C03" | "C04" => {
             let b = ctx.budget_s;
